@@ -112,6 +112,31 @@ def d0(prog, rep):
                       f"{fn} runs `{short_name(c.callee)}` on a path that did not reset the state "
                       f"to the last committed snapshot (leftovers of a rejected or abandoned "
                       f"proposal would be executed upon)", c.where())
+    # ... and so does everything that *reads* the inter-block state to judge or build block
+    # content (vote-extension validation, transaction construction, cached deposits): any
+    # workspace call that is handed `&self.state` must lie behind the reset, except the reads
+    # of cached results (object_get: D4) and the price delta that runs on both paths (D1).
+    # (A proposal executed in an earlier round of the same height leaves `self.state` dirty;
+    # validating the next round's proposal against it makes accept/reject path dependent.)
+    n_readers = 0
+    for fn in ("finalize_block", "process_proposal", "prepare_proposal"):
+        body = prog.main_body(A + fn)
+        reset = body.calls_to(RESET)
+        for c in body.calls:
+            if c.expn or not c.args:
+                continue
+            if not any(body.root(a) == "self.state" for a in c.args):
+                continue
+            if re.search(r"(::object_get|::clone|StateDelta::<.*>::new)$", c.callee or ""):
+                continue
+            n_readers += 1
+            ok = bool(reset) and must_pass_block_corr(body, reset[0].bb, c.bb)
+            rep.check(ok, "D0", rep.nth(f"{fn}:reads-state:{short_name(c.callee)}<=reset"),
+                      f"{fn} hands the inter-block state to `{short_name(c.callee)}` on a path "
+                      f"that has not reset it to the last committed snapshot: the outcome depends "
+                      f"on what an earlier, undecided proposal of this height left behind",
+                      c.where())
+    rep.floor("D0", n_readers, 6, "calls that read self.state in the ABCI handlers")
     # the reset really replaces state and execution state
     body = prog.main_body(RESET)
     snaps = [c for c in body.calls if c.matches(r"Storage::latest_snapshot$")]
